@@ -200,7 +200,7 @@ func worker(prop string, base uint64, from, count, stride int, limit float64, de
 		if sum.Trouble != "" {
 			break
 		}
-		if k%16 == 15 {
+		if k%16 == 15 || heapBig() {
 			runtime.GC()
 		}
 	}
@@ -281,4 +281,11 @@ func replayMode(path string, verbose bool) int {
 	}
 	fmt.Printf("NOT-REPRODUCED property=%s\n", rf.Property)
 	return 0
+}
+
+// heapBig reports whether the heap grew past a quarter GiB (the collector is off during runs).
+func heapBig() bool {
+	var ms runtime.MemStats
+	runtime.ReadMemStats(&ms)
+	return ms.HeapAlloc > 256<<20
 }
